@@ -39,6 +39,9 @@ func AddRoute(addr tcpip.Address) {
 	})
 }
 func init() {
+	if verifSkipInit() {
+		return
+	}
 	//如果已经存在 p 指向的stack 则不需要在初始化
 	if stack.Pstack != nil {
 		return
